@@ -1,0 +1,52 @@
+//go:build verif
+
+package factory
+
+// Machine-checked contracts (comment-only; read by /verif/engine, never compiled into the binary).
+// Start-up validation (C20).  The validation rules themselves are struct tags interpreted by govalidator and yaml.v2:
+// the tags below are compared syntactically with the source (a changed or dropped rule is reported); what a rule
+// means ("required", "host", "in(...)", "cidr") is the dependency's business (A-VALIDATOR).
+
+//@ tag factory.Config.Version serves C20 = yaml:"version" valid:"required,in(1.0.3)"
+//@ tag factory.Config.Pfcp serves C20 = yaml:"pfcp" valid:"required"
+//@ tag factory.Config.Gtpu serves C20 = yaml:"gtpu" valid:"required"
+//@ tag factory.Config.DnnList serves C20 = yaml:"dnnList" valid:"required"
+//@ tag factory.Config.Logger serves C20 = yaml:"logger" valid:"required"
+//@ tag factory.Pfcp.Addr serves C20 = yaml:"addr" valid:"required,host"
+//@ tag factory.Pfcp.NodeID serves C20 = yaml:"nodeID" valid:"required,host"
+//@ tag factory.Pfcp.RetransTimeout serves C20 = yaml:"retransTimeout" valid:"required"
+//@ tag factory.Pfcp.MaxRetrans serves C20 = yaml:"maxRetrans" valid:"optional"
+//@ tag factory.Gtpu.Forwarder serves C20 = yaml:"forwarder" valid:"required,in(gtp5g)"
+//@ tag factory.Gtpu.IfList serves C20 = yaml:"ifList" valid:"optional"
+//@ tag factory.IfInfo.Addr serves C20 = yaml:"addr" valid:"required,host"
+//@ tag factory.IfInfo.Type serves C20 = yaml:"type" valid:"required,in(N3|N9)"
+//@ tag factory.DnnList.Dnn serves C20 = yaml:"dnn" valid:"required"
+//@ tag factory.DnnList.Cidr serves C20 = yaml:"cidr" valid:"required,cidr"
+//@ tag factory.Logger.Level serves C20 = yaml:"level" valid:"required,in(trace|debug|info|warn|error|fatal|panic)"
+
+// A-VALIDATOR (assumed): govalidator.ValidateStruct returns a nil error only for a struct that satisfies every rule,
+// in particular the "required" pointer fields are non-nil.
+//@ func ReadConfig(cfgPath string) (cfg *Config, err error)
+//@   ensures [err]  err != nil ==> cfg == nil
+//@   ensures [ok]   err == nil ==> cfg != nil && fresh(cfg)
+//@   modifies *
+//@   serves C20 C07
+//@   at call InitConfigFactory:
+//@     assert [into]  arg0 == cfgPath && arg1 == cfg
+//@   after call InitConfigFactory:
+//@     assume [A-TAGMAP] govalidator.TagMap != nil
+//@   at call ValidateStruct:
+//@     assert [same]  arg0 == iface(cfg)
+//@   after call ValidateStruct:
+//@     assume [A-VALIDATOR] ret1 == nil ==> cfg.Pfcp != nil && cfg.Gtpu != nil && cfg.Logger != nil
+//@   at call ResolveIPAddr:
+//@     assert [nodeid] arg0 == "ip4" && arg1 == cfg.Pfcp.NodeID
+
+//@ func InitConfigFactory(f string, cfg *Config) (err error)
+//@   requires cfg != nil
+//@   modifies *
+//@   serves C20 C07
+//@   at call ReadFile:
+//@     assert [path]  arg0 == ite(f == "", "./config/upfcfg.yaml", f)
+//@   at call Unmarshal:
+//@     assert [into]  arg0 == content && arg1 == iface(cfg)
